@@ -31,7 +31,7 @@ func init() {
 			"direction 2 (documentation -> implementation): streams generated from the documented grammar (blocks in any order, three bin layouts, N=0, negative/zero/large deltas and strides, repeated indexes, repeated zero-count/store/identical mapping blocks, statistics blocks interleaved) are decoded by DecodeDDSketch / DecodeDDSketchWithExactSummaryStatistics / DecodeAndMergeWith into every store kind; content must equal the sum the documentation assigns. " +
 			"Also: the plain decoder accepts exact-summary encodings with identical bins. Non-trivial = stream with >=3 blocks and >=2 distinct layouts or a non-unit stride; distinct = hash of the stream.",
 		Cases:     core.Scale(120000, 3000000),
-		Mandatory: []string{"oracle.independent_parse", "oracle.independent_parse.exact", "oracle.grammar_streams_decoded", "oracle.plain_decoder_on_exact_encoding", "grammar.stride_nonunit", "grammar.stride_negative", "grammar.stride_zero", "grammar.repeated_index", "grammar.empty_block", "grammar.mapping_last", "grammar.mapping_repeated", "grammar.statistics_blocks", "grammar.deltas_beyond_int32", "grammar.all_zero_block", "decoder.exact", "decoder.merge_into_nonempty"},
+		Mandatory: []string{"oracle.independent_parse", "oracle.independent_parse.exact", "oracle.grammar_streams_decoded", "decoder.into_reused_receiver", "oracle.plain_decoder_on_exact_encoding", "grammar.stride_nonunit", "grammar.stride_negative", "grammar.stride_zero", "grammar.repeated_index", "grammar.empty_block", "grammar.mapping_last", "grammar.mapping_repeated", "grammar.statistics_blocks", "grammar.deltas_beyond_int32", "grammar.all_zero_block", "decoder.exact", "decoder.merge_into_nonempty"},
 		Assumptions: []string{
 			"the reference codec in /verif/harness/internal/wire is itself faithful to the format documentation",
 		},
@@ -886,14 +886,24 @@ func runC07Doc2Impl(c *core.Ctx) {
 			supplied = nil
 		}
 		intoNonEmpty := r.P(0.3)
+		// a receiver that was used (enough to have grown arrays, pages and buffers) and cleared: as good as new
+		intoReused := !intoNonEmpty && r.P(0.2)
 		want := modelOfBlocks(back, m, target)
 		var d mon.Sketch
 		var derr error
-		if intoNonEmpty {
-			c.Count("decoder.merge_into_nonempty", 1)
+		if intoNonEmpty || intoReused {
+			if intoNonEmpty {
+				c.Count("decoder.merge_into_nonempty", 1)
+			} else {
+				c.Count("decoder.into_reused_receiver", 1)
+			}
 			d = mon.NewSketch(exactDecoder, m.M, target)
 			pre := mon.NewSketchModel(m, target)
-			for i := 0; i < r.Range(1, 10); i++ {
+			nPre := r.Range(1, 10)
+			if intoReused {
+				nPre = r.Range(10, 150)
+			}
+			for i := 0; i < nPre; i++ {
 				v := 0.0
 				if ci := centre + r.Range(-100, 100); ci > m.IMin+1 && ci < m.IMax-1 {
 					v = m.M.Value(ci)
@@ -905,6 +915,10 @@ func runC07Doc2Impl(c *core.Ctx) {
 				}
 				d.I().Add(v)
 				pre.Add(v, 1)
+			}
+			if intoReused {
+				d.I().Clear()
+				pre.Clear()
 			}
 			pre.Merge(want)
 			want = pre
